@@ -89,20 +89,6 @@ type transport struct {
 	rs    internal.ResponseStorer            // Stores HTTP responses in the cache
 	vrh   internal.ValidationResponseHandler // Processes validation responses for revalidation
 	clock internal.Clock                     // Provides time-related operations, can be mocked for testing
-
-	// storeSem serialises the steps that look at what is stored now and then
-	// change it: freshening an entry after a 304, and invalidation. (A
-	// one-slot semaphore rather than a mutex, so that waiting for it is
-	// visible to testing/synctest; nil in hand-built transports.)
-	storeSem chan struct{}
-}
-
-func (r *transport) lockStore() (unlock func()) {
-	if r.storeSem == nil {
-		return func() {}
-	}
-	r.storeSem <- struct{}{}
-	return func() { <-r.storeSem }
 }
 
 // superseded reports whether the entry that was looked up (and validated with
@@ -110,9 +96,9 @@ func (r *transport) lockStore() (unlock func()) {
 // id: it was invalidated or replaced while the origin was being asked. Such an
 // entry is still a valid answer to the request at hand, but it must not be
 // written back.
-func (r *transport) superseded(stored *internal.Response, req *http.Request) bool {
-	current, err := r.cache.Get(stored.ID, req)
-	return err != nil || identityOf(current) != identityOf(stored)
+func (r *transport) superseded(id string, identity entryIdentity, req *http.Request) bool {
+	current, err := r.cache.Get(id, req)
+	return err != nil || identityOf(current) != identity
 }
 
 // entryIdentity tells two responses stored under one id apart.
@@ -176,8 +162,6 @@ func newTransport(conn driver.Conn, options ...Option) http.RoundTripper {
 		uk:    internal.NewURLKeyer(),
 		ce:    internal.NewCacheabilityEvaluator(),
 		clock: internal.NewClock(),
-
-		storeSem: make(chan struct{}, 1),
 	}
 
 	for _, opt := range options {
@@ -307,10 +291,8 @@ func (r *transport) handleUnrecognizedMethod(
 	}
 	ensureHeader(resp)
 	if internal.IsNonErrorStatus(resp.StatusCode) {
-		unlock := r.lockStore()
 		refs, _ := r.cache.GetRefs(urlKey)
 		r.ci.InvalidateCache(req.URL, resp.Header, refs, urlKey)
-		unlock()
 	}
 	internal.CacheStatusBypass.ApplyTo(resp.Header)
 	r.logger.LogCacheBypass(
@@ -478,9 +460,8 @@ revalidate:
 	if err == nil && resp.StatusCode == http.StatusNotModified {
 		// Freshening writes the entry that was looked up before the origin
 		// was asked: only if it is still the one that is stored.
-		unlock := r.lockStore()
-		defer unlock()
-		ctx.Superseded = r.superseded(stored, req)
+		identity := identityOf(stored)
+		ctx.Unchanged = func() bool { return !r.superseded(stored.ID, identity, req) }
 	}
 	return r.vrh.HandleValidationResponse(ctx, req, resp, err)
 }
@@ -593,11 +574,6 @@ func (r *transport) backgroundRevalidate(
 		// The stored response has been handed to the caller and must not be
 		// touched again: work on a copy of the entry read back from the cache,
 		// and on the current variant index so that other variants are kept.
-		if resp.StatusCode == http.StatusNotModified {
-			// (see handleCacheHit: check and write-back are one step)
-			unlock := r.lockStore()
-			defer unlock()
-		}
 		own, err := r.cache.Get(stored.ID, req)
 		if err != nil {
 			errc <- err // entry is gone (e.g. invalidated); nothing to refresh
@@ -620,6 +596,11 @@ func (r *transport) backgroundRevalidate(
 			Refs:      refs,
 			RefIndex:  refIndex,
 			Freshness: freshness,
+		}
+		if resp.StatusCode == http.StatusNotModified {
+			// (as in handleCacheHit: the check is one step with the write-back)
+			id := stored.ID
+			revalCtx.Unchanged = func() bool { return !r.superseded(id, identity, req) }
 		}
 		out, err := r.vrh.HandleValidationResponse(revalCtx, req, resp, nil)
 		if out != nil && out != resp && out.Body != nil {
